@@ -1121,6 +1121,9 @@ static int exec_line(char* line)
     if (end_case())
       return 1;
     snprintf(current_case, sizeof(current_case), "%s", ntk > 1 ? tk[1] : "?");
+    /* the arena hook (H1) is process-global as well */
+    yr_verif_arena_initial_size = 0;
+    yr_verif_arena_exact_growth = 0;
     if (cfg_dirty)
     {
       /* configuration is process-global: a case never inherits what an earlier case of the batch set */
